@@ -55,8 +55,13 @@ Clause map — each phrase of the property text → theorems, with the status
        precedence ≥ 0, a character only the separator loop can take ends the scan: the completed token is returned before
        further extras are skipped;  `sepStep_skip` — a pure separator transition moves the token start (SKIP).
    [T] real lexer = `tokenizeSep` on every string of every such set (10 sets / ~130 000 strings per quick run), and
-       `tokenizeSep` = `skipExtras` + `lexScan` on every string of the sets WITHOUT such tokens (~296 000 strings per run;
-       OPEN as a theorem).  [J] `skippedToken`: walking the REAL tokens, no skipped position is the start of a valid
+       `tokenizeSep` = `skipExtras` + `lexScan` on every string of the sets WITHOUT such tokens (~296 000 strings per run).
+   [Ph] the latter is now also a theorem (TsVerif/C14/Round11.lean), hypothesis `NoExtraStart` (the derivative of every token by
+       every extras character is the empty regex — the Bool the driver evaluates, `noExtraStartB_sound`):
+       `lexOneSep_eq_skip_lexScan` (one lexing step: same token, start = number of leading extras, same end),
+       `sepAtEof_eq` (end of input accepted iff only extras remain), `tokenizeSep_eq_tokenizeAux` /
+       `tokenizeSep_eq_refTokenize` (whole tokenizations, every fuel); non-vacuity `arith_noExtraStart` (zoo/arith token set);
+       counter-example without the hypothesis: /b+/, `"  "`, input `b␣` (the `sepeof` finding).  [J] `skippedToken`: walking the REAL tokens, no skipped position is the start of a valid
        token; `overlapDeviation`: first deviation from the documented reading (skip extras up to the first position where
        a token matches) — two classes are KNOWN FINDINGS (`sepeof`: trailing extras rejected after a partial token;
        `sepabsorb`: a token's extent includes extras), anything else is a violation.
